@@ -220,12 +220,24 @@ func mutate(o *optSet, base *bEntry, kind string, r *hx.Rng, so [][32]byte) *bEn
 		e.R = hx.KT(base.r, 1+r.Intn(7), 0, "mixedR")
 		copy(e.sig[:32], e.R.Bytes[:])
 		resign()
+	// an undecodable key / R; half of the time S is what would satisfy the equation if the library put the neutral
+	// element in the place of the point it could not decode
 	case "undecA":
+		kR := e.R.K
 		e.A = hx.Undecodable(r)
 		e.key = e.A.Bytes[:]
+		if r.Intn(2) == 0 && kR != nil {
+			setS(new(big.Int).Mod(kR, refmodel.L))
+		}
 	case "undecR":
+		kA := e.A.K
 		e.R = hx.Undecodable(r)
 		copy(e.sig[:32], e.R.Bytes[:])
+		if r.Intn(2) == 0 && kA != nil {
+			h := hx.HRAM(o.variant, o.ctx, e.sig[:32], e.key, e.msg)
+			S := new(big.Int).Mul(new(big.Int).Mod(refmodel.FromLE(h[:]), refmodel.L), kA)
+			setS(S.Mod(S, refmodel.L))
+		}
 	case "truncKey":
 		e.key = e.key[:31]
 	case "truncSig":
